@@ -215,10 +215,12 @@ S('cnt_generations', 'counter/cnt.cpp', {'assert': 'C19'}, extra=['babylon/concu
 # ----------------------------------------------------------------------------------------------- C07: executors
 EXX = ['babylon/executor.cpp', 'babylon/basic_executor.cpp']
 def tpx(name, ts, final, local=0, **kw):
+    kw.setdefault('opts', {'loop:keep_execute': '4'})
     S('tp_' + name, 'executor/tp.cpp', kw.pop('props', {'assert': 'C07', 'stuck': 'C07'}), defs=['VF_LOCAL=%d' % local] + ['VF_T%d=%s' % (i, t) for i, t in enumerate(ts)] + ['VF_FINAL=' + final], extra=EXX, **kw)
 tpx('submit_then_stop', ['SUBMIT(0);STOP_MARKS(1);JOIN(0);vf_check(__atomic_load_n(&ran[0], __ATOMIC_RELAXED)==1, 1)', 'WORKER(0)'], 'vf_check(ran[0]==1 && in_pool[0]==1 && ret[0]==0, 2)')
 tpx('two_tasks', ['SUBMIT(0);SUBMIT(1);STOP_MARKS(1);JOIN(0)', 'WORKER(0)'], 'vf_check(ran[0]==1 && ran[1]==1, 2)')
-tpx('spawn_local', ['SUBMIT_SPAWNING(0,1);STOP_MARKS(1);JOIN(0);vf_check(__atomic_load_n(&ran[1], __ATOMIC_RELAXED)==1, 1)', 'WORKER(0)'], 'vf_check(ran[0]==1 && ran[1]==1 && in_pool[1]==1, 2)', local=2)
+tpx('two_workers', ['SUBMIT(0);SUBMIT(1);STOP_MARKS(2);JOIN(0);JOIN(1)', 'WORKER(0)', 'WORKER(1)'], 'vf_check(ran[0]==1 && ran[1]==1, 2)', tiers=TH, timeout=7200)
+# (a task that submits a child into the worker's local queue does not converge in the engine yet: formula contradictory, see DESIGN.md open items)
 
 # ----------------------------------------------------------------------------------------------- manifest texts
 LEVEL_TEXT = {
@@ -236,6 +238,9 @@ LEVEL_TEXT = {
  'C16': 'Real ConcurrentExecutionQueue with a harness Executor (inline / parked consumer): items consumed exactly once, never two consumers at once (plain-access detector), no item stranded once every accepted consumer has run. Refused launches and join() are thorough-tier.',
  'C17': 'Real CachedPageAllocator over a recording upstream: ownership detector (a page is never held twice / returned upstream twice / returned while held) and conservation upstream_out - upstream_in == held + cached. Object pool, batch/counting allocators outside.',
  'C18': 'Sequential mode on the real ConcurrentTransientHashSet: default / sized(4,16) construction, N inserts with duplicates (N symbolic <= 6, and exactly 34 to cross two chained tables), then size/empty/iteration/find/contains vs a reference bitmap. clear/reserve/rehash/copy/move/swap histories outside.',
+ 'C07': 'Real ThreadPoolExecutor (started with 0 OS threads; a harness thread runs the real keep_execute() worker loop): submit()/execute() of 1-2 tasks, the STOP markers of stop(), join == worker returned; every accepted task ran exactly once on a thread that reports is_running_in(), before the stopper passes its join; STUCK query on the futex-based global queue. Work stealing between 2 workers is thorough-tier; tasks spawning tasks, balance thread, new-thread executor outside.',
+ 'C12': 'Sequential mode on the real ReusableVector<uint64_t> over ExclusiveMonotonicBufferResource: 2-3 symbolic operations (push_back, pop_back, insert(pos), erase(pos), resize, clear, assign with symbolic positions/counts) from an empty or 3-element vector, compared after every step with a reference array; size <= constructed_size <= capacity, clear keeps capacity. Strings, nested reusable elements, manager cadence outside.',
+ 'C19': 'Sequential thread generations (each generation = a new logical thread after the previous one exited and its thread_local destructors ran; natively replayed on real std::threads): adder/summer exact across thread exit and thread-id reuse, maxer/miner extreme of the period for arbitrary 64-bit inputs, local() stable, for_each vs for_each_alive, a new counter recycling a destroyed one starts from zero. Concurrent counting-vs-reading outside.',
  'C20': 'Sequential mode: real LogStreamBuffer + LogEntry::append_to_iovec for every length <= 40 (page 16): scatter list == bytes written, every page once; real AsyncFileAppender write() x3 with symbolic entry lengths 0..2, stop marker, real keep_writing(): file == concatenation, pages returned. Concurrent appender scenarios thorough-tier.',
 }
 LEVEL_NOTE = {}
